@@ -21,7 +21,7 @@ FUNCS = ['coba.evaluators.sequential:SequentialCB.evaluate','coba.evaluators.seq
 
 CobaContext.logger = NullLogger()
 
-RECORDS = [['reward','action','probability'], ['reward','time','probability','action','context','actions','rewards'], ['time'], ['context','actions','rewards'], [], ['reward','probability'], ['action']]
+RECORDS = [['reward','action','probability'], ['reward','time','probability','action','context','actions','rewards'], ['time'], ['context','actions','rewards'], [], ['reward','probability'], ['action'], ['action','probability']]
 
 class Env:
     def __init__(self, interactions): self._i = interactions
@@ -72,7 +72,7 @@ def _classify(v):
     if 'UnboundLocalError' in w: return "learn=None with 'time' recorded: UnboundLocalError learn_time"
     return w.split(' @')[0][:100]
 
-@obligation('C06','trace', bounds={'quick':"N=2 interactions; context kind in {None,scalar,dense 2-tuple,sparse 2-key dict} (symbolic ints); 3 actions (one-hot vectors with a bare-action learner when there is no context, {10,11,12} for dense, {0,1,2} for scalar/sparse contexts); rewards list or function (symbolic k/4); optional logged action (fixed index (i+1) mod 3)/reward/probability (all, none, or one missing); extra field; learner with/without kwargs, with/without score(); learn x eval x 7 record sets",
+@obligation('C06','trace', bounds={'quick':"N=2 interactions; context kind in {None,scalar,dense 2-tuple,sparse 2-key dict} (symbolic ints); 3 actions (one-hot vectors with a bare-action learner when there is no context, {10,11,12} for dense, {0,1,2} for scalar/sparse contexts); rewards list or function (symbolic k/4); optional logged action (fixed index (i+1) mod 3)/reward/probability (all, none, or one missing); extra field; learner with/without kwargs, with/without score(); learn x eval x 8 record sets",
                                    'thorough':"N=2 and 3"},
             functions=FUNCS, params=params, classify=_classify, budget={'quick':80,'thorough':900})
 def trace(sym, n, learn, ev, rec):
@@ -236,8 +236,8 @@ class BatchRecorder:
     def learn(self, context, action, reward, probability):
         self.trace.append(('learn', list(context), list(action), list(reward), list(probability)))
 
-@obligation('C06','batched', bounds="environment of 3 or 4 interactions batched in twos (Batch(2): the last batch may hold one), dense symbolic contexts, 3 int actions, list rewards k/4; batch-capable learner answering row-major with (action, probability); learn=on, eval=on, record sets {reward,action,probability} and all: every un-batched result row carries its own action, probability, reward and extra field; the learner is taught batch by batch with its own choices",
-            functions=FUNCS+['coba.environments.filters:Batch.filter','coba.environments.filters:Unbatch._unbatch'], params=lambda tier: [dict(n=n, rec=r) for n in (3,4) for r in (0,1)], classify=_classify)
+@obligation('C06','batched', bounds="environment of 3 or 4 interactions batched in twos (Batch(2): the last batch may hold one), dense symbolic contexts, 3 int actions, list rewards k/4; batch-capable learner answering row-major with (action, probability); learn=on, eval=on, record sets {reward,action,probability}, all, {action}, {action,probability}; with or without an extra environment field: every un-batched result row carries its own action, probability, reward and extra field; the learner is taught batch by batch with its own choices",
+            functions=FUNCS+['coba.environments.filters:Batch.filter','coba.environments.filters:Unbatch._unbatch'], params=lambda tier: [dict(n=n, rec=r) for n in (3,4) for r in (0,1,6,7)], classify=_classify)
 def batched(sym, n, rec):
     from coba.environments.filters import Batch
     record = RECORDS[rec]
@@ -246,6 +246,9 @@ def batched(sym, n, rec):
     for i in range(n):
         rw = [sym.real(f'r{i}_{k}', -1, 2, denom=4) for k in range(3)]; R.append(rw)
         inter.append({'context': (sym.int(f'x{i}', -3, 3), i), 'actions': list(acts), 'rewards': list(rw), 'extra': sym.int(f'e{i}', 0, 9)})
+    with_extra = sym.flag('extra_field')
+    if not with_extra:
+        for d in inter: del d['extra']
     class BEnv:
         def read(self): return Batch(2).filter(iter([dict(i) for i in inter]))
     tr = []
@@ -260,9 +263,10 @@ def batched(sym, n, rec):
     sym.check(len(said) == n and len(preds) == (n+1)//2, f"the learner was asked for {len(said)} rows in {len(preds)} batched calls")
     for i,(row,(a,p,idx)) in enumerate(zip(rows, said)):
         sym.check(row.get('action') == a, f"row {i}: recorded action {row.get('action')!r}, the learner chose {a}")
-        sym.check(row.get('probability') == p, f"row {i}: recorded probability is not the learner's own")
-        sym.check(row.get('reward') == R[i][idx], f"row {i}: recorded reward is not the reward of the chosen action")
-        sym.check(row.get('extra') == inter[i]['extra'], f"row {i}: extra field not carried unchanged")
+        if 'probability' in record: sym.check(row.get('probability') == p, f"row {i}: recorded probability is not the learner's own")
+        if 'reward' in record: sym.check(row.get('reward') == R[i][idx], f"row {i}: recorded reward is not the reward of the chosen action")
+        if 'probability' not in record: sym.check('probability' not in row, f"row {i}: probability recorded although not requested")
+        if with_extra: sym.check(row.get('extra') == inter[i]['extra'], f"row {i}: extra field not carried unchanged")
     taught = [(a,r,p) for t in learns for a,r,p in zip(t[2],t[3],t[4])]
     sym.check(len(taught) == n, f"the learner was taught {len(taught)} rows")
     for i,((a,r,p),(sa,sp,idx)) in enumerate(zip(taught, said)):
